@@ -152,6 +152,14 @@ class C19(Prop):
             for val in ("1", "0.5", "0.25", "0.1", "0.125", "0.75", "2", "1.5", "-1", "-0.5"):
                 for mode in ("exact", "decimal"):
                     out.append(Case(f"cli {C.hexs(val + ' ' + u)} {mode}", "plural-sweep", f"{val} {u}"))
+        # unit powers of one, two and three digits, positive and negative, and prefixes that have
+        # no symbol of their own (printed as e<n>)
+        for pw in list(range(2, 14)) + [19, 20, 21, 25, 30, 99, 100, 101, 120, 123, 1000, 1234]:
+            for u in ("m", "s"):
+                for t in (f"2 {u}^{pw}", f"3 kg/{u}^{pw}", f"1 {u}^-{pw}"):
+                    out.append(Case(f"cli {C.hexs(t)} decimal", "power-sweep", t))
+        for t in ("2 m^6 * 2 m^6", "1 km^12", "1 m^5 * 1 m^7 / 1 s^13", "1 mm^2 * 1 km", "1 dam * 1 hm", "3 Mg", "1 kg * 1 Mg"):
+            out.append(Case(f"cli {C.hexs(t)} decimal", "power-sweep", t))
         n = 120 if tier == "quick" else 3000
         for i in range(n):
             k = rng.below(4)
